@@ -23,10 +23,19 @@
   The merge half is also false (finding C12-F5, witnessed on the implementation, see
   proposed_findings/cd.json): removing `other` from a bank can leave an empty cost level, which
   `query_derivation` takes for an exhausted argument and stops generating successors.
-  NOT proved: no duplicates with a filter, the liveness half (false), the merge half (false).
+  GLOBAL THEOREM (section "global theorems"): C12_Cd_filter_nodup — NO DUPLICATES WITH A FILTER: for every
+  filter (and arithmetic, grammar with dict rows — recursive ones included —, `k`, fuel), `k` calls of `next` on a
+  new enumerator yield pairwise distinct programs, all accepted by the filter; C12_Cd_hist_nodup — EACH PROGRAM AT MOST
+  ONCE ALONG EVERY HISTORY of `next` and `merge_program` calls (every merged program only derivable from non-terminals
+  of its declared type): `merge_program` keeps the bank invariant, a deleted program never re-enters a bank, and no
+  program is yielded twice, before or after a merge.
+  NOT proved: the liveness half (false), the merge half (false).
 -/
 import PS.Model.Enum.ConstantDelay
 import PS.Proofs.Enum.CDFilter
+import PS.Proofs.Enum.CDGRun
+import PS.Proofs.Enum.CDGPrologue
+import PS.Proofs.Enum.CDGMerge
 namespace PS.C12Cd
 open PS PS.CD
 
@@ -83,5 +92,36 @@ theorem finding_C12_F6 :
 example : ((Gen.new { envF6 with filter := fun _ => true }).bind fun g =>
     take { envF6 with filter := fun _ => true } 1000 10 g []).map (fun r => (r.2.1.length, r.2.2)) = some (4, true) := by
   decide +kernel
+
+/-! ## global theorems -/
+
+/-- **NO DUPLICATES WITH A FILTER, NONE REJECTED.**  For every filter, arithmetic, grammar whose rows have distinct keys,
+    `k`, fuel: the programs yielded by `k` calls of `next` on a new enumerator are pairwise distinct and each of them was
+    accepted by the filter; the filter only makes `query` skip programs (`_deleted`), which never re-enter a bank.
+    (Scope: no `merge_program` in the history.) -/
+theorem C12_Cd_filter_nodup (E : Env α) (hG : RowsNodup E.G) (fuel k : Nat) (g g' : Gen α) (ys : List Prog) (fin : Bool)
+    (hnew : Gen.new E = some g) (h : take E fuel k g [] = some (g', ys, fin)) :
+    ys.Nodup ∧ (∀ p ∈ ys, E.filter p = true) ∧ BInv g'.st := by
+  obtain ⟨a, b, _, _⟩ := take_gi E hG fuel k g [] g' ys fin h
+    (gen_new_gi E fuel g hnew (fun s hp hS hE => prologue_tinv2 E fuel g hnew s hp hS hE)) (by simp) (by simp)
+  refine ⟨b, C12_Cd_take_accepted E fuel k g g' ys fin h, ?_⟩
+  by_cases hph : g'.phase = .fresh
+  · exact (ninv_of_empty (E := E) (a.1 hph).2.2.1).binv
+  · exact (a.2 hph).2.2.1.binv
+
+/-- non-vacuity: the grammar of finding C12-F6 with the filter rejecting every application of `f0`: the run is defined
+    -/
+example : ((Gen.new envF6).map fun g => (take envF6 1000 10 g []).isSome) = some true := by decide +kernel
+
+/-- **EACH PROGRAM AT MOST ONCE, WITH A FILTER AND MERGES.**  For every filter, arithmetic, grammar whose rows have distinct
+    keys, `k`, fuel and every history of `next` / `merge_program(rep, other)` calls on a new enumerator in which every
+    merged program is only derivable from non-terminals of its declared type: no program is yielded twice, and the
+    banks stay duplicate-free and pairwise disjoint (a program removed by a merge is in `_deleted` and never re-enters
+    a bank). -/
+theorem C12_Cd_hist_nodup (E : Env α) (hG : RowsNodup E.G) (fuel : Nat) (acts : List Act) (g g' : Gen α) (ys : List Prog)
+    (hnew : Gen.new E = some g) (hacts : ActsOK E acts) (h : runHist E fuel acts g [] = some (g', ys)) :
+    ys.Nodup ∧ (∀ q ∈ ys, InBank g'.st E.G.start q ∨ q ∈ g'.st.deleted) := by
+  obtain ⟨_, b⟩ := runHist_gi2 E hG fuel acts g [] g' ys h hacts (gen_new_gi2 E fuel g hnew) ⟨by simp, by simp⟩
+  exact b
 
 end PS.C12Cd
